@@ -21,7 +21,11 @@ const (
 	discv5MaxPacket   = 1280
 	talkRespFraming   = 103 // 16 IV + 55 header + 1 + 3 + 9 + 3 + 16 HMAC (itemised in the repository's comment)
 	netutilCheckRelay = "github.com/ethereum/go-ethereum/p2p/netutil.CheckRelayIP"
+	// the netip flavour of the same rule, same argument roles (sender, relayed address)
+	netutilCheckRelayAddr = "github.com/ethereum/go-ethereum/p2p/netutil.CheckRelayAddr"
 )
+
+func isRelayCheck(id string) bool { return id == netutilCheckRelay || id == netutilCheckRelayAddr }
 
 // handlerFor finds the portalwire function whose last parameter is *<msgType> and that returns ([]byte, error).
 func handlerFor(p *core.Prog, msgType string) *ssa.Function {
@@ -982,12 +986,18 @@ func c11(c *Ctx) {
 					}
 					is := func(v ssa.Value) bool {
 						cc, ok := v.(*ssa.Call)
-						if !ok || core.CalleeID(cc) != netutilCheckRelay {
+						if !ok || !isRelayCheck(core.CalleeID(cc)) {
 							return false
 						}
 						fromAsker := false
 						if pa := core.ParamOf(cc.Call.Args[0]); pa != nil && pa.Parent() == coll {
 							fromAsker = true
+						} else if core.CalleeID(cc) == netutilCheckRelayAddr {
+							// the asker's net.IP converted to a netip.Addr
+							fromAsker = core.Derives(cc.Call.Args[0], func(x ssa.Value) bool {
+								pa := core.ParamOf(x)
+								return pa != nil && pa.Parent() == coll && strings.HasSuffix(pa.Type().String(), "IP")
+							}, core.DeriveOpts{ThroughCalls: true})
 						}
 						if inl {
 							// the asker's address is a parameter of the handler (its IP field)
@@ -1153,7 +1163,7 @@ func c11(c *Ctx) {
 	// ---- R2 asking side: the verifier = function calling enode.New and CheckRelayIP returning (*enode.Node, error)
 	var V *ssa.Function
 	for _, fn := range p.ModuleFuncs() {
-		if fn.Pkg == p.SSAPkg("portalwire") && len(core.CallsTo(fn, "github.com/ethereum/go-ethereum/p2p/enode.New")) > 0 && len(core.CallsTo(fn, netutilCheckRelay)) > 0 {
+		if fn.Pkg == p.SSAPkg("portalwire") && len(core.CallsTo(fn, "github.com/ethereum/go-ethereum/p2p/enode.New")) > 0 && len(core.CallsTo(fn, netutilCheckRelay))+len(core.CallsTo(fn, netutilCheckRelayAddr)) > 0 {
 			V = fn
 		}
 	}
@@ -1182,7 +1192,7 @@ func c11(c *Ctx) {
 	g := core.ErrNilGate("enode.New", func(c2 *ssa.Call) bool { return c2 == newCall })
 	checkGate("signature", "accepted only after enode.New succeeded", "a record can be accepted without a valid signature", g.Edge)
 	relay := core.ErrNilGate("relay", func(c2 *ssa.Call) bool {
-		if core.CalleeID(c2) != netutilCheckRelay {
+		if !isRelayCheck(core.CalleeID(c2)) {
 			return false
 		}
 		a0 := core.Derives(c2.Call.Args[0], func(v ssa.Value) bool { return v == ssa.Value(sender) }, core.DeriveOpts{ThroughCalls: true})
